@@ -38,10 +38,18 @@ from .tok import obs_to_tok as to_tok, norm as tok_norm, thash
 
 
 def load_findings():
+    """known_findings.json (committed, never written at run time) + per-property
+    fragments known_findings.d/Cxx.json (same schema; merged view)."""
+    out = []
     p = os.path.join(VERIF, "known_findings.json")
-    if not os.path.exists(p):
-        return []
-    return json.load(open(p))["findings"]
+    if os.path.exists(p):
+        out += json.load(open(p))["findings"]
+    d = os.path.join(VERIF, "known_findings.d")
+    if os.path.isdir(d):
+        for f in sorted(os.listdir(d)):
+            if f.endswith(".json"):
+                out += json.load(open(os.path.join(d, f)))["findings"]
+    return out
 
 
 def load_regress(pid):
@@ -285,7 +293,7 @@ def run_check(pid, tier, seed, replay=None):
         rep.violation(dict(kind="correspondence-break", clause=None, input=cases[i], detail=msg,
                            broken="corr:%s model evaluation failed (%d cases)" % (pid, len(model_errs))), "model", nofail=True)
     if not proof_ok:
-        if rep.violations == 0 or True:
+        if True:
             rep.violation(dict(kind="proof-break", clause=None, input=None,
                                broken="props/%s.v: %s" % (pid, ", ".join(broken_thms) or "does not compile / gate"),
                                gate=gate, log=audit["log"][-3000:]), "proof", nofail=(concrete == 0))
